@@ -8,6 +8,7 @@ pub mod c10;
 pub mod c06;
 pub mod c13;
 pub mod c14;
+pub mod c07;
 pub mod c20;
 
 pub fn run(prop: &str, ctx: &mut Ctx) -> Option<Report> {
@@ -19,6 +20,7 @@ pub fn run(prop: &str, ctx: &mut Ctx) -> Option<Report> {
         "C06" => Some(c06::run(ctx)),
         "C13" => Some(c13::run(ctx)),
         "C14" => Some(c14::run(ctx)),
+        "C07" => Some(c07::run(ctx)),
         "C20" => Some(c20::run(ctx)),
         _ => None,
     }
